@@ -54,3 +54,12 @@ Proof.
   exists r. split; [exact Hr|]. intros Hlen. destruct (row_minor_nonneg r Hin) as (He & Hi & Hp).
   split; apply thread_vertices; try assumption; apply z_step_nonneg; assumption.
 Qed.
+
+(* hand and advance: the vertex list is the first section followed by one ring of four section points per step; the ring of
+   step s stands at angle +(s+1)*360/segments for right-hand threads and -(s+1)*360/segments for left-hand ones and is lifted by
+   s * z_step: going up a right-hand thread turns counter-clockwise, a left-hand one clockwise *)
+Theorem C16_thread_rings : forall (d_min d_maj pitch length : R) (segments : Z) (li lo : R) (left : bool),
+  (0 <= d_min <= d_maj)%R -> (0 <= pitch)%R -> (0 <= segments)%Z -> (0 <= li)%R -> (0 <= lo)%R ->
+  built d_min d_maj pitch length segments left (rev (fst (thread_mesh d_min d_maj pitch length segments li lo left)))
+        (Z.to_nat (n_steps pitch length segments - 1)).
+Proof. exact thread_rings. Qed.
